@@ -148,6 +148,13 @@ pub(crate) fn read_escaped_string(
                             chars.next();
                         }
                     }
+                    '\r' => {
+                        // a backslash before a line break written `\r\n` or `\r` is a line feed
+                        if chars.peek().filter(|(_, char)| *char == '\n').is_some() {
+                            chars.next();
+                        }
+                        value.push(b'\n');
+                    }
                     _ => {
                         // an invalid escape does not error: it simply skips the backslash
                         let mut buf = [0u8; 4];
